@@ -33,7 +33,7 @@ def c04(tier):
                      "preemption granularity = every shim operation (mutex, condvar, state-byte atomic) plus explicit points inside managed steps, natives and the operation body"])
 
 
-CHECKS = {"C12": props_b.c12, "C04": c04, "C03": props_b.c03, "C09": props_b.c09, "C14": tier_c.c14, "C13": props_b.c13, "C15": tier_c.c15, "C18": tier_c.c18}
+CHECKS = {"C12": props_b.c12, "C04": props_b.c04, "C03": props_b.c03, "C09": props_b.c09, "C14": tier_c.c14, "C13": props_b.c13, "C15": tier_c.c15, "C18": tier_c.c18}
 def replay_ab(harness):
     def f(path):
         obj = json.load(open(path))
@@ -44,7 +44,7 @@ def replay_ab(harness):
 
 
 REPLAY = {"C12": replay_ab("term"),
-          "C04": lambda path: tier_a.replay_tier_a("stw", path),
+          "C04": replay_ab("stw"),
           "C03": props_b.c03_replay, "C09": replay_ab("waitq"), "C14": tier_c.c14_replay, "C13": tier_b.replay_file}
 
 
